@@ -1166,6 +1166,9 @@ func (w *vzWorld) finalChecks() {
 	for _, nd := range w.nodes {
 		if !nd.byz {
 			w.orc.checkStoredHeadersIntact(nd)
+			if w.endReason == "done" || w.endReason == "quiescent" {
+				w.orc.checkRejectedReplaysLeftNoTrace(nd) // every replay has been answered by now
+			}
 		}
 	}
 	if !(w.cfg.oracles["C11"] || w.cfg.oracles["C09"]) || w.s.Failed() || w.s.Expired() {
